@@ -1,6 +1,6 @@
 (* C09 property theorems (UintVecMin0).  Statements + exact + Print Assumptions only. *)
-From ZV.Common Require Import Base.
-From ZV.C09 Require Import Model ProofsBits ProofsVec.
+From ZV.Common Require Import Base Run.
+From ZV.C09 Require Import Model ProofsBits ProofsVec ModelSorted Cases ProofsSorted ProofsZip.
 Open Scope N_scope.
 
 (* a field of any supported width never straddles the 64-bit load window *)
@@ -58,3 +58,53 @@ Theorem min0_wide_refuted :
     new 2 (W64 - 1) = Panic.
 Proof. exact min0_wide_refuted_proof. Qed.
 Print Assumptions min0_wide_refuted.
+
+(* ---------- ZipIntVec (min offset on top of UintVecMin0) ---------- *)
+(* bulk build stores every element, for every sequence of u64 values whose range fits 58 bits - also at the top of
+   the usize range; reads past the end are refused (the documented panic of a plain-usize API) *)
+Theorem zip_get_build :
+  forall src, src <> [] -> Forall (fun v => v < W64) src -> list_max src - list_min src < 2 ^ 58 ->
+    exists z, zip_build_from src = Ok z /\ size (inner z) = nlen src /\
+      (forall i, (i < length src)%nat -> zip_get z (N.of_nat i) = Ok (nth i src 0)) /\
+      (forall i, nlen src <= i -> zip_get z i = Panic).
+Proof. exact zip_build_get_proof. Qed.
+Print Assumptions zip_get_build.
+
+(* ---------- SortedUintVec + builder ---------- *)
+(* for every admissible configuration (all block sizes 16..256, offset widths 8..32, sample widths 16..57 and 64, either
+   extraction path) and every sorted sequence of u64 values whose in-block deltas fit offset_width and whose block minima
+   fit sample_width: the build succeeds, the length is preserved, element i reads back, reads past the end are refused *)
+Theorem sorted_uint_vec_get :
+  forall c vals, cfg_valid c = true -> push_all_sorted None vals = true ->
+    deltas_fit c vals -> samples_fit c vals -> all_u64 vals ->
+    exists v, sbuild c vals = ROk v /\ ssize v = nlen vals /\
+      (forall i, i < nlen vals -> sget v i = ROk (vnth vals i)) /\
+      (forall i, nlen vals <= i -> sget v i = RErr).
+Proof. exact sorted_get_build_proof. Qed.
+Print Assumptions sorted_uint_vec_get.
+
+(* get2 = two gets, refused as soon as the second index is past the end *)
+Theorem sorted_uint_vec_get2 :
+  forall c vals v, cfg_valid c = true -> deltas_fit c vals -> all_u64 vals -> sbuild c vals = ROk v ->
+    forall i, sget2 v i = if i + 1 <? nlen vals then ROk (vnth vals i, vnth vals (i + 1)) else RErr.
+Proof. exact sorted_get2_proof. Qed.
+Print Assumptions sorted_uint_vec_get2.
+
+(* get_block = the block's stored values followed by zeros up to the block size; block indices past the end are refused *)
+Theorem sorted_uint_vec_get_block :
+  forall c vals v, cfg_valid c = true -> deltas_fit c vals -> all_u64 vals -> sbuild c vals = ROk v ->
+    forall k, sget_block v k =
+      if k <? nblocks c vals then
+        let actual := N.min (k * bsize c + bsize c) (nlen vals) - k * bsize c in
+        ROk (map (fun t => vnth vals (k * bsize c + t)) (rangeN 0 (N.to_nat actual)) ++ repeat 0 (N.to_nat (bsize c - actual)))
+      else RErr.
+Proof. exact sorted_get_block_proof. Qed.
+Print Assumptions sorted_uint_vec_get_block.
+
+(* the builder succeeds only for an admissible configuration, sorted input, deltas that fit offset_width and block
+   minima that fit sample_width (with sorted_uint_vec_get: it succeeds exactly then) *)
+Theorem sorted_uint_vec_build_only_if :
+  forall c vals v, sbuild c vals = ROk v ->
+    cfg_valid c = true /\ push_all_sorted None vals = true /\ deltas_fit c vals /\ (sw c < 64 -> samples_fit c vals).
+Proof. exact sbuild_only_if. Qed.
+Print Assumptions sorted_uint_vec_build_only_if.
